@@ -145,7 +145,15 @@ type (
 // Recipients performs recipient de-duplication on the IntransitiveActivity's To, Bto, CC and BCC properties
 func (i *IntransitiveActivity) Recipients() ItemCollection {
 	aud := i.Audience
-	return ItemCollectionDeduplication(&i.To, &i.CC, &i.Bto, &i.BCC, &ItemCollection{i.Actor}, &aud)
+	// the actors: one, or a list of them (a JSON array, even of one, is decoded to a list)
+	actors := ItemCollection{i.Actor}
+	if IsItemCollection(i.Actor) {
+		_ = OnItemCollection(i.Actor, func(col *ItemCollection) error {
+			actors = append(ItemCollection{}, *col...)
+			return nil
+		})
+	}
+	return ItemCollectionDeduplication(&i.To, &i.CC, &i.Bto, &i.BCC, &actors, &aud)
 }
 
 // Clean removes Bto and BCC properties
